@@ -67,7 +67,7 @@ CONSTANTS
   Kinds = {kinds}
   Names = {names}
   Locs = {locs}
-  Spans = {spans}
+  SpanIds = {spans}
   MaxPool = {pool}
   MaxLeaves = {leaves}
   MaxLoc = {maxloc}
@@ -84,7 +84,7 @@ CONSTANTS
   Kinds = {"dup"}
   Names = {"x"}
   Locs = {"a", "b", "c", "d"}
-  Spans = {1, 2, 3, 4, 5, 6}
+  SpanIds = {1, 2, 3, 4, 5, 6}
   MaxPool = 6
   MaxLeaves = 12
   MaxLoc = 99
